@@ -68,11 +68,12 @@ def wfWhy (p : Str) (st : WState) : List ATok → String
     if wfGo p st (a :: as) then "ok"
     else
       let st' : WState := match a.tok.kind with
-        | .INDENT => ⟨st.depth + 1, st.startline⟩
-        | .DEDENT => ⟨st.depth - 1, st.startline⟩
-        | .NEWLINE | .NL => ⟨st.depth, true⟩
+        | .INDENT => ⟨st.depth + 1, st.startline, false⟩
+        | .DEDENT => ⟨st.depth - 1, st.startline, false⟩
+        | .NEWLINE | .NL => ⟨st.depth, true, false⟩
         | .ENDMARKER => st
-        | _ => ⟨st.depth, false⟩
+        | .FSTRING_MIDDLE => ⟨st.depth, false, true⟩
+        | _ => ⟨st.depth, false, false⟩
       if wfGo p st' as || as.isEmpty then
         (reprStr a.tok.kind) ++ (if !a.gap.all isBlank then ":gap" else "")
       else wfWhy p st' as
@@ -114,7 +115,7 @@ def handlers : List (String × (List Sexp → String)) := [
       pure (toString (Sexp.list [Sexp.ofBool rOk, Sexp.ofBool w, Sexp.ofBool (startsOk p ats),
               strS (renderA (adjust p ats)),
               .atom (if w then "ok" else match ats with
-                | _ :: b :: rest => wfWhy p ⟨1, true⟩ (b :: rest)
+                | _ :: b :: rest => wfWhy p ⟨1, true, false⟩ (b :: rest)
                 | _ => "short")]))),
   -- annotated tokens of the ORIGINAL code: hypothesis + classes of C15_unfold_partial, and its prediction
   ("c15.ucls", fun a => run do
